@@ -76,6 +76,7 @@ func runC16(c *Ctx) {
 	n := c.Q(120, 12000)
 	Par(n, func(i int) { runC16History(c, i) })
 	runC16Tamper(c)
+	runC16Scale(c)
 	rep.Require("connections/must", 20)
 	rep.Require("resumed_sessions_decoded_under_original_master", 10)
 }
